@@ -359,3 +359,27 @@ pub fn run_migrations(stride: usize, out: &mut dyn Write) {
         }
     }
 }
+
+/// Huge exact-identity forests through both codecs, logged by fingerprint (see bincase::run_huge).
+pub fn run_huge(seed: u64, count: usize, out: &mut dyn Write) {
+    std::panic::set_hook(Box::new(|_| {}));
+    let mut rng = StdRng::seed_from_u64(seed);
+    for i in 0..count {
+        let dom = gen::huge_dom(&mut rng, i + seed as usize);
+        let roots: Vec<Ref> = dom.root().children().to_vec();
+        let fp_of = |r: Result<WeakDom, String>| -> Value {
+            match r {
+                Ok(d) => {
+                    let k: Vec<Ref> = d.root().children().to_vec();
+                    json!({"read": "ok", "fp_after": crate::pval::forest_fp(&d, &k)})
+                }
+                Err(e) => json!({"read": crate::bincase::outcome_class(&e), "detail": e}),
+            }
+        };
+        let bin = fp_of(write_bin(&dom, &roots, CompressionType::Lz4).and_then(|d| read_bin(&d)));
+        let xml = fp_of(write_xml(&dom, &roots, "WriteUnknown").and_then(|d| read_xml(&d, "ReadUnknown")));
+        let ev = json!({"ep": format!("crosshuge:{}:{}", seed, i), "op": "cross_fp", "fp_before": crate::pval::forest_fp(&dom, &roots), "bin": bin, "xml": xml});
+        serde_json::to_writer(&mut *out, &ev).unwrap();
+        out.write_all(b"\n").unwrap();
+    }
+}
